@@ -165,9 +165,53 @@ func c03NoStaleReply(c *Ctx) {
 	}
 
 	// ---- waiters
+	// a query helper may take the reply channel as a parameter (`queryReply(query, vx.chBg)`): the parameter stands
+	// for every channel field some call site of the package binds it to
+	paramChans := map[types.Object]map[string]bool{}
+	for _, fi := range c.P.FuncsIn("vaxis") {
+		if fi.Decl.Body == nil {
+			continue
+		}
+		ast.Inspect(fi.Decl.Body, func(n ast.Node) bool {
+			call, ok := n.(*ast.CallExpr)
+			if !ok {
+				return true
+			}
+			fn := calleeOf(info, call)
+			if fn == nil || fn.Pkg() != pk.Types {
+				return true
+			}
+			sig := fn.Type().(*types.Signature)
+			for i, a := range call.Args {
+				if i >= sig.Params().Len() {
+					break
+				}
+				pv := sig.Params().At(i)
+				if _, isChan := pv.Type().Underlying().(*types.Chan); !isChan {
+					continue
+				}
+				if path := canonPath(info, a); strings.HasPrefix(path, "Vaxis.") {
+					if paramChans[pv] == nil {
+						paramChans[pv] = map[string]bool{}
+					}
+					paramChans[pv][path] = true
+				}
+			}
+			return true
+		})
+	}
 	isRecvOf := func(n ast.Node, ch string) bool {
 		u, ok := n.(*ast.UnaryExpr)
-		return ok && u.Op == token.ARROW && canonPath(info, u.X) == ch
+		if !ok || u.Op != token.ARROW {
+			return false
+		}
+		if canonPath(info, u.X) == ch {
+			return true
+		}
+		if id, isID := unparen(u.X).(*ast.Ident); isID {
+			return paramChans[info.ObjectOf(id)][ch]
+		}
+		return false
 	}
 	// the receive is the comm of a select arm and the select has a default arm
 	inDrainSelect := func(u ast.Node) bool {
